@@ -134,6 +134,45 @@ func NTLMAuthenticateRaw(user, domain, workstation string, nt, lm []byte, flags 
 	return b
 }
 
+// NTLMAuthenticateForm builds an authenticate message in one of the three layouts clients use:
+// form 0 with Version and MIC (88-byte fixed part), 1 with Version only (72), 2 with neither (64),
+// 3 the oldest layout without session-key field and flags (52).
+func NTLMAuthenticateForm(user, domain, workstation string, nt, lm []byte, flags uint32, encKey []byte, form int) []byte {
+	fields := [][]byte{lm, nt, UTF16LE(domain), UTF16LE(user), UTF16LE(workstation), encKey}
+	hdr := []int{88, 72, 64, 52}[form]
+	if form == 3 {
+		fields = fields[:5]
+	}
+	b := []byte(ntlmSig)
+	b = binary.LittleEndian.AppendUint32(b, 3)
+	off := hdr
+	for _, f := range fields {
+		b = binary.LittleEndian.AppendUint16(b, uint16(len(f)))
+		b = binary.LittleEndian.AppendUint16(b, uint16(len(f)))
+		b = binary.LittleEndian.AppendUint32(b, uint32(off))
+		off += len(f)
+	}
+	if form == 2 {
+		flags &^= ntlmVersion
+	}
+	if form < 3 {
+		b = binary.LittleEndian.AppendUint32(b, flags)
+	}
+	if form <= 1 {
+		b = append(b, 10, 0, 0x61, 0x4a, 0, 0, 0, 15)
+	}
+	if form == 0 {
+		b = append(b, make([]byte, 16)...)
+	}
+	for _, f := range fields {
+		b = append(b, f...)
+	}
+	return b
+}
+
+// NTLMDefaultFlags is the flag set NTLMAuthenticate uses.
+const NTLMDefaultFlags = uint32(ntlmUnicode | ntlmReqTarget | ntlmSign | ntlmNTLM | ntlmAlways | ntlmESS | ntlmTargetInf | ntlmVersion | ntlm128 | ntlmKeyExch | ntlm56)
+
 // NTLMType3Fields extracts user name and NT response from a type-3 message (for the oracle).
 func NTLMType3Fields(b []byte) (user, domain string, nt []byte, ok bool) {
 	if len(b) < 64 || string(b[:8]) != ntlmSig || binary.LittleEndian.Uint32(b[8:]) != 3 {
